@@ -76,7 +76,7 @@ class Run(Oracles):
         L.BaseTaskPool._pools.clear()
         for i, spec in enumerate(self.program["pools"]):
             pm = PoolM(i, spec)
-            size = inf if spec.get("size") is None else spec["size"]
+            size = inf if spec.get("size") is None else (float(spec["size"]) if spec.get("size_as_float") else spec["size"])
             kw: Dict[str, Any] = {}
             if spec.get("name") is not None:
                 kw["name"] = spec["name"]
@@ -347,9 +347,10 @@ class Run(Oracles):
                     kw["kwargs"] = rm.kwargs
             return pool.apply(func, **kw)
         it = w.make_iter(rm, {"n": spec.get("n", 0), "pull_ops": spec.get("pull_ops"), "as_list": spec.get("as_list"),
-                              "raise_at": spec.get("iter_raise_at", -1), "fault_kind": spec.get("fault_kind", 0), "shapes": spec.get("shapes")})
+                              "raise_at": spec.get("iter_raise_at", -1), "fault_kind": spec.get("fault_kind", 0), "shapes": spec.get("shapes"),
+                              "as_cursor": spec.get("as_cursor")})
         if "nc" in spec:
-            kw["num_concurrent"] = spec["nc"]
+            kw["num_concurrent"] = inf if spec["nc"] == "inf" else spec["nc"]
         return getattr(pool, kind)(func, it, **kw)
 
     def explicit_name(self, pm: PoolM, g: Any) -> str:
@@ -470,7 +471,9 @@ class Run(Oracles):
         spec = {"cls": "TaskPool", "size": op.get("size")}
         pm = PoolM(len(w.pools), spec)
         kw = {} if spec["size"] is None else {"pool_size": spec["size"]}
-        pm.pool = L.TaskPool(**kw)
+        # optionally a class from a "class factory": a distinct class that carries the same __name__ as TaskPool
+        cls = type("TaskPool", (L.TaskPool,), {}) if op.get("factory") else L.TaskPool
+        pm.pool = cls(**kw)
         pm.name = str(pm.pool)
         if pm.name in w.name_re:
             w.fail({"C11"}, "name/pools-share-a-name", f"{pm.name} (pool created mid-run)")
